@@ -241,6 +241,8 @@ def run(ctx):
     import roles as _roles
     _roles.rule_R_ROLE(ctx, modules=('enum_narsese::term',))
     _roles.rule_A_NAMES(ctx, modules=('enum_narsese::term',))
+    import lskel as _lskel
+    _lskel.rule_L_SKELETON(ctx, which=('term',), floor=10)
     ctx.undecided = ["the exact accepted integer syntax (std's usize::from_str, trusted: optional leading '+', decimal digits, must fit usize)"]
     ctx.assumptions = ["nar_dev_utils::ResultBoost::transform runs its first closure iff the receiver is Ok, the second iff Err (read from the pinned source; version asserted)"]
     ctx.trusted = ["rustc HIR/MIR", "mirfacts driver", "python rule layer", "std String::clear/push_str, Vec/HashSet::extend semantics"]
